@@ -188,8 +188,16 @@ func (rm *RpcMultiplexer) NewStreamReadWriter(
 		func(ctx context.Context, rpc *goatorepo.Rpc) error {
 			err := rm.rw.Write(ctx, rpc)
 			if err != nil {
-				if rErr := rm.readErrorIfDone(); rErr != nil {
-					return rErr
+				// Ask for the recorded read error only once the read loop has
+				// ended. While it runs it may be parked in handleResponse on
+				// this very stream, holding rm.mutex until the stream's
+				// teardown - which a failed reset write is part of.
+				select {
+				case <-rm.ctx.Done():
+					if rErr := rm.readErrorIfDone(); rErr != nil {
+						return rErr
+					}
+				default:
 				}
 			}
 			return err
